@@ -133,6 +133,9 @@ def worker_main(pid, tier, seed, unit_file, out_file):
     with open(unit_file) as f:
         job = json.load(f)
     mod = load_mod(pid)
+    pre = getattr(mod, 'pre_import', None)
+    if pre:
+        pre()       # instrumentation that must be in place before the code under test is imported
     import ombott
     root = os.path.realpath(REPO)
     assert os.path.realpath(ombott.__file__).startswith(root + os.sep), \
@@ -417,7 +420,14 @@ def main(argv):
 
 
 if __name__ == '__main__':
-    rc = main(sys.argv[1:])
+    try:
+        rc = main(sys.argv[1:])
+    except SystemExit:
+        raise
+    except BaseException:   # noqa  a broken harness is never a verdict about the code under test
+        traceback.print_exc()
+        print('INCONCLUSIVE reason=the harness itself failed (see traceback above)')
+        rc = 2
     try:
         sys.stdout.flush()
     except Exception:  # noqa
